@@ -108,12 +108,13 @@ CLAIMED = {
         "exercised with one plug-in (the theorems quantify over all); cipher strength is outside the property",
     ),
     "C12": (
-        "proof (partial): first datagram of a fresh client is a discovery probe in every history; every request carries the "
+        "proof: first datagram of a fresh client is a discovery probe in every history; every request carries the "
         "discovered engine id (security and default context engine id); refused discovery replies (foreign msg id / no bindings) "
-        "cache nothing; for every history without agent reboot and arbitrary clock advances every request carries exactly the "
-        "agent's boots and engine time (inside the 150 s window). The full statement with reboots is proved false "
-        "(C12_reboot_counterexample) and recorded as an open known finding; tied by histories on a shared virtual time line",
-        "partial: no clock drift between client and agent; reboots are a known finding; engine-time wrap at 2^31 not modelled",
+        "cache nothing; from ANY state (after any history of requests, clock advances, agent reboots, refused replies) a "
+        "request by an authenticated user ends with a request inside the agent's 150 s window (C12_in_window), with at most "
+        "one out-of-window attempt per operation; without reboots every datagram is within 1 s of the agent's time; tied by "
+        "histories on a shared virtual time line (wire trace + agent verdict per datagram)",
+        "no clock drift between client and agent; engine-time wrap at 2^31 and time passing during one operation not modelled",
     ),
     "C13": (
         "proof (partial): for every outcome sequence, retries and timeout: <= retries identical transmissions, first reply inside "
